@@ -48,6 +48,30 @@ def make_exp(family, params, spot=100.0, r=0.02, d=0.0):
     return create_exponential_of_levy_model(_TYPES[family])(spot=spot, r=r, d=d, **params)
 
 
+def reinitialised(model, family, params):
+    """The same model rebuilt the way calibration rebuilds it (model/utils.py: deepcopy of the parameter object, an
+    attribute assignment, `initialisation()`, then `type(model)(..., parameters=obj)`): one primary parameter is moved to
+    another legal value and back, with `initialisation()` after each assignment.  The result must be indistinguishable
+    from the freshly constructed model; checks use it as a second 'history' of every model they examine."""
+    import copy
+    from rpylib.model.levymodel.exponentialoflevymodel import ExponentialOfLevyModel
+    lm = model.levy_model if isinstance(model, ExponentialOfLevyModel) else model
+    if not hasattr(lm, "parameters"):        # Black-Scholes keeps no parameter object on its Lévy model
+        return model
+    p = copy.deepcopy(lm.parameters)
+    drawn = draw_params(__import__("random").Random(0), family) if family != "bs" else {"sigma": 0.2}
+    name = sorted(drawn)[len(params) % len(drawn)]
+    original = getattr(p, name)
+    other = drawn[name] if drawn[name] != original else drawn[name] * 1.5
+    setattr(p, name, other)
+    p.initialisation()
+    setattr(p, name, original)
+    p.initialisation()
+    if isinstance(model, ExponentialOfLevyModel):
+        return type(model)(spot=model.spot, r=model.r, d=model.d, parameters=p)
+    return type(model)(parameters=p)
+
+
 def model_stream(rng, n, families=FAMILIES):
     """n (family, params) pairs; first the defaults of each family, then every CGMY branch, then random draws"""
     out = [(f, {}) for f in families]
